@@ -5,4 +5,4 @@ From H3V Require Import Base.Bytes Gen.GenCodes Gen.GenFrameTypes Gen.GenReqStre
 Extraction Language OCaml.
 Extraction "C03_model.ml"
   N.add N.mul N.div_eucl N.ltb N.leb N.eqb N.min len
-  rs_new rrun rs_reset settings_verdict request_outcome.
+  rs_new rrun rs_reset settings_verdict rfc_settings_verdict request_outcome.
